@@ -105,8 +105,8 @@ class Env:
         self.log = os.path.join(self.d, "invocations.log")
         kind = v["kind"]
         if kind in ("exit", "kill"):
-            with open(os.path.join(self.d, "stderr.txt"), "w") as f:
-                f.write(v.get("stderr", ""))
+            with open(os.path.join(self.d, "stderr.txt"), "wb") as f:
+                f.write(bytes.fromhex(v["stderr_hex"]) if v.get("stderr_hex") else v.get("stderr", "").encode("utf-8"))
             tail = f"exit {v['rc']}" if kind == "exit" else f"kill -{v['sig']} $$"
             sh = f"#!/bin/sh\necho \"$*\" >> {self.log}\n/bin/cat {self.d}/stderr.txt >&2\n{tail}\n"
             p = os.path.join(self.bin, "java")
@@ -171,6 +171,10 @@ def validators(tier, rich):
     for s in ss:
         for rc in rcs:
             vs.append({"kind": "exit", "rc": rc, "stderr": s})
+    # validator output that is not valid UTF-8 (a Windows code page): the verdict must still be honoured
+    for raw in (b"Ung\x81ltig /data/q\n", b"\xff\xfe bad\n", b"caf\xe9\n"):
+        for rc in (0, 1):
+            vs.append({"kind": "exit", "rc": rc, "stderr": raw.decode("latin-1"), "stderr_hex": raw.hex(), "loose": True})
     vs += [{"kind": "kill", "sig": 9, "stderr": LINES[0] + "\n"}, {"kind": "kill", "sig": 15, "stderr": ""}, {"kind": "absent"}, {"kind": "corrupt"}]
     return vs
 
@@ -272,6 +276,15 @@ def residue_viol(env, tag):
     return [(f"tmp-residue:{tag}", f"{r}")] if r else []
 
 
+def _ascii(sx):
+    return "".join(c if ord(c) < 128 else "?" for c in sx)
+
+
+def same_text(v, got, want):
+    """byte scripts: the decoding of non-UTF-8 bytes is not fixed by the statement, their ASCII part is"""
+    return _ascii(got) == _ascii(want) if v.get("loose") else got == want
+
+
 def judge_lib_outcome(cls, v, exc, warnings, tag):
     """common part for the two in-process entry points: exception type / message / warnings"""
     from pyxform.validators.odk_validate import ODKValidateError
@@ -282,7 +295,7 @@ def judge_lib_outcome(cls, v, exc, warnings, tag):
             viol.append((f"reject-not-raised:{tag}", f"got {type(exc).__name__ if exc else 'a result'}: {str(exc)[:150]}"))
         elif v["kind"] == "exit":
             want = "ODK Validate Errors:\n" + ref_clean(v["stderr"])
-            if str(exc) != want:
+            if not same_text(v, str(exc), want):
                 viol.append((f"reject-message:{tag}", f"want {want!r} got {str(exc)!r}"))
         elif "jarfile" not in str(exc):
             viol.append((f"reject-message:{tag}", f"corrupt jar: {str(exc)[:200]!r}"))
@@ -296,7 +309,7 @@ def judge_lib_outcome(cls, v, exc, warnings, tag):
             vw = [w for w in warnings if w.startswith("ODK Validate") or "ODK Validate" in w]
             if cls == "accept" and vw:
                 viol.append((f"accept-spurious-warning:{tag}", str(vw)[:200]))
-            if cls == "accept-stderr" and vw != ["ODK Validate Warnings:\n" + v["stderr"]]:
+            if cls == "accept-stderr" and not (len(vw) == 1 and same_text(v, vw[0], "ODK Validate Warnings:\n" + v["stderr"])):
                 viol.append((f"accept-stderr-not-surfaced:{tag}", f"want stderr {v['stderr']!r} got {vw!r}"))
             if cls == "killed" and vw != ["Bad return code from ODK Validate."]:
                 viol.append((f"killed-outcome:{tag}", str(vw)[:200]))
@@ -474,7 +487,7 @@ def check_cli(case):
             if is_json:
                 if resp["code"] != 999:
                     viol.append(("reject-code:cli-json", str(resp)[:200]))
-                elif want is not None and resp["message"] != want:
+                elif want is not None and not same_text(v, resp["message"], want):
                     viol.append(("reject-message:cli-json", f"want {want!r} got {resp['message']!r}"))
                 viol += files_viol(env, out_path, False, pre, form, pp, tag)
             else:
@@ -497,13 +510,13 @@ def check_cli(case):
         wantw = [] if cls == "accept" else ["ODK Validate Warnings:\n" + v["stderr"]] if cls == "accept-stderr" else ["Bad return code from ODK Validate."]
         if is_json:
             code = 101 if wantw else 100
-            if resp["code"] != code or resp["warnings"] != wantw:
+            if resp["code"] != code or len(resp["warnings"]) != len(wantw) or not all(same_text(v, a, b) for a, b in zip(resp["warnings"], wantw)):
                 viol.append(("accept-code-or-warnings:cli-json", f"want {code} {wantw!r} got {str(resp)[:200]}"))
         else:
             if "Conversion complete!" not in text:
                 viol.append(("accept-not-reported:cli", text[-200:]))
             for w in wantw:
-                if w.strip() and w.strip().splitlines()[-1] not in text:
+                if w.strip() and _ascii(w.strip().splitlines()[-1]).strip("?") not in _ascii(text):
                     viol.append(("accept-warning-not-logged:cli", f"{w!r}"))
         viol += files_viol(env, out_path, True, pre, form, pp, tag)
         return {"outcome": "cli:accept", "nt": not viol and bool(wantw), "viol": viol, "tr": 3 + inv}
